@@ -1,8 +1,10 @@
 package publicsuffix
 
 import (
+	"encoding/json"
 	"fmt"
 	"net/netip"
+	"os"
 	"sort"
 	"strings"
 	"sync"
@@ -308,6 +310,12 @@ func TestVP_C51(t *testing.T) {
 	vp.Run(t, vp.Spec[c51Case]{ID: "C51", Gen: c51Gen, Prop: c51Prop})
 }
 
+// Fixed finding c51-icann-from-ruleless-node (KNOWN_FINDINGS.json, /repo 1f5b520):
+// PublicSuffix used to overwrite icann with the bit of parent-only nodes that carry no
+// rule ("za" -> icann=true although only the default rule matches;
+// "noc.ruhr-uni-bochum.de" -> true although the prevailing rule is a PRIVATE one).
+// Both inputs are kept in /verif/regress/C51 and the class is not excluded any more.
+
 // ---- enumeration: every rule, every shape -----------------------------------------
 
 // c51Neighbours returns labels that sort next to l or differ minimally from it.
@@ -324,7 +332,45 @@ func c51Neighbours(l string) []string {
 	return out
 }
 
+// c51Replay handles replay mode for the two enumerations: vp.RunEnum would re-run the
+// whole enumeration for every replay file (also for those of the other checks).
+// It returns true when the test is done (skipped, or the single case was replayed).
+func c51Replay(t *testing.T, sub string) bool {
+	p := os.Getenv("VP_REPLAY")
+	if p == "" {
+		// the enumerations are deterministic: with several shards (thorough tier)
+		// only shard 0 runs them, so evaluations are not counted 16 times
+		if sh := os.Getenv("VP_SHARD"); sh != "" && sh != "0" {
+			t.Skip("enumeration runs in shard 0 only")
+		}
+		return false
+	}
+	var ff struct {
+		ID, Sub string
+		Case    c51Case
+	}
+	b, err := os.ReadFile(p)
+	if err != nil || json.Unmarshal(b, &ff) != nil {
+		t.Fatalf("VP: cannot read replay file %s", p)
+	}
+	if ff.ID != "C51" || ff.Sub != sub {
+		t.Skipf("replay file is for %s/%s", ff.ID, ff.Sub)
+	}
+	if sub != "rules" {
+		return false // tables: re-run the (deterministic, fast) walk
+	}
+	if _, _, err := c51Check(ff.Case.Domain); err != nil {
+		fmt.Printf("VP-REPLAY-FAIL C51 %s: %v\n", sub, err)
+		t.Fatalf("replay failed: %v", err)
+	}
+	fmt.Printf("VP-REPLAY-PASS C51 %s\n", sub)
+	return true
+}
+
 func TestVP_C51_rules(t *testing.T) {
+	if c51Replay(t, "rules") {
+		return
+	}
 	vp.RunEnum(t, "C51", "rules", true, func(e *vp.Enum) {
 		ref := c51GetRef()
 		if len(ref.bad) > 0 {
@@ -413,6 +459,9 @@ type c51TableNode struct {
 }
 
 func TestVP_C51_tables(t *testing.T) {
+	if c51Replay(t, "tables") {
+		return
+	}
 	vp.RunEnum(t, "C51", "tables", true, func(e *vp.Enum) {
 		// Decoder written from the layout comments in table.go:
 		// node (40 bit, big endian): [7 unused][10 children index][1 ICANN][16 text offset][6 text length]
